@@ -558,6 +558,11 @@ package fit
 //@@ (an absent optional message) writes nothing
 //@ func (e *encoder) encodeDefAndDataMesg(mesg reflect.Value) (err error)
 //@   props C05 C07
+//@   locals callarg1 *encodeMesgDef, callarg2 *encodeMesgDef, res_getEncodeMesgDef_1 *encodeMesgDef
+//@@ C05 "every data record preceded by a definition of its local type": the definition that is written and the one
+//@@ the record is laid out by are one and the same object (the one built for this message)
+//@   callsite writeDefMesg [the-def] callarg1 == res_getEncodeMesgDef_1
+//@   callsite writeMesg [same-def] callarg2 == res_getEncodeMesgDef_1
 //@   requires e.w != nil && (isLE(e.arch) || isBE(e.arch)) && rvmsgarg(mesg)
 //@   requires [known] rvvalid(rvindirect(mesg)) ==> knownMsgNums[MesgNum(rvmt(rvindirect(mesg)))]
 //@   ensures [written] err == nil && rvvalid(rvindirect(mesg)) ==> ndefs(e) == old(ndefs(e))+1 && nrecords(e) == old(nrecords(e))+1
